@@ -424,9 +424,11 @@ def select0Loop (I : BP) (k : Nat) : Nat → Nat → Nat → Nat
 def BP.select0 (I : BP) (k : Nat) : Option Nat :=
   if k ≥ I.len - I.totalOnes then none else some (select0Loop I k (I.len + 1) 0 I.len)
 
-/-- `select_in_word(word, k as u32) as usize`: every dispatch path is C02's subject and equals the
-bit-at-a-time definition there; C04 takes that definition. -/
-def selectInWord (w : BitVec 64) (k : Nat) : Nat := selectInWordSpec w (k % 2 ^ 32)
+/-- `select_in_word(word, k as u32) as usize`: the dispatcher takes the PDEP path on CPUs with fast
+BMI2 and the CTZ loop otherwise; both (and the broadword fallback) are proved equal to the
+bit-at-a-time definition for every word and `k` in C02 (`select_ctz_eq`, `select_pdep_eq`,
+`select_paths_agree`), so the model runs the CTZ loop. -/
+def selectInWord (w : BitVec 64) (k : Nat) : Nat := selectCtz w (k % 2 ^ 32)
 
 /-- `SelectIndex::jump_to(k)`. -/
 def jumpTo (samples : Array (Nat × Nat)) (rate k : Nat) : Nat × Nat :=
@@ -436,11 +438,26 @@ def jumpTo (samples : Array (Nat × Nat)) (rate k : Nat) : Nat × Nat :=
     let e := if si ≥ samples.size then samples.getD (samples.size - 1) (0, 0) else samples.getD si (0, 0)
     (e.1, k - e.2)
 
-/-- `slice.partition_point(|r| r <= k)` by the standard library's binary search; the model takes
-its specification (number of leading elements satisfying the predicate on a partitioned slice =
-here: scanning from the left), which is what the library guarantees for a partitioned slice. -/
+/-- The `while size > 1` loop of core's `binary_search_by` (branch-free form used since Rust 1.82):
+`half = size / 2; mid = base + half; base = if cmp == Greater { base } else { mid }; size -= half`,
+with `cmp = Less` when the predicate `r <= k` holds and `Greater` otherwise. -/
+def ppLoop (window : Array Nat) (k : Nat) : Nat → Nat → Nat → Nat
+  | 0, _, base => base
+  | f + 1, size, base =>
+    if size > 1 then
+      let half := size / 2
+      let mid := base + half
+      ppLoop window k f (size - half) (if window.getD mid 0 ≤ k then mid else base)
+    else base
+
+/-- `slice.partition_point(|r| r <= k)` = `binary_search_by(..).unwrap_or_else(|i| i)`: after the
+loop, `Err(base + (cmp == Less) as usize)`. -/
 def partitionPointLe (window : List Nat) (k : Nat) : Nat :=
-  (window.takeWhile fun r => r ≤ k).length
+  let a := window.toArray
+  if a.size = 0 then 0
+  else
+    let base := ppLoop a k a.size a.size 0
+    base + (if a.getD base 0 ≤ k then 1 else 0)
 
 /-- The `for i in (1..words_in_block).rev()` loop: `(word_in_block, word_rank)`. -/
 def csWordLoop (packed blockRank k : Nat) : Nat → Nat × Nat
@@ -649,12 +666,13 @@ def fcBitLoop (w : BitVec 64) (base : Nat) : Nat → Nat → Int → Option Nat
     else if e - 1 = 0 then some (base + bit)
     else fcBitLoop w base n (bit + 1) (e - 1)
 
-/-- The `for (i, &word) in words[word_idx + 1..]` loop (`|words| = ⌈len/64⌉`: the partial-word
-branch `len - actual_word_idx * 64` cannot underflow). -/
+/-- The `for (i, &word) in words[word_idx + 1..]` loop; the guard at the loop head (words lying
+wholly at or beyond `len` end the scan) keeps `len - actual_word_idx * 64` from underflowing. -/
 def fcWordLoop (ws : Array (BitVec 64)) (len : Nat) : Nat → Nat → Int → Option Nat
   | 0, _, _ => none
   | f + 1, idx, excess =>
     if idx ≥ ws.size then none
+    else if idx * 64 ≥ len then none          -- words wholly beyond `len` (surplus storage): stop
     else
       let word := wordAt ws idx
       let wordBits := if idx * 64 + 64 ≤ len then 64 else len - idx * 64
